@@ -435,6 +435,10 @@ pub struct World {
     /// for `hold_us` and then accepted with a server configuration whose idle timeout is shorter than
     /// that, so that `Endpoint::accept` abandons it as stale
     pub stale_accepts: Vec<(u32, u32)>,
+    /// connections (index in `conns`) whose very first datagram is damaged on the link inside the
+    /// protected payload: the server sees a well-formed Initial whose authentication fails at accept
+    pub corrupt_first_of: std::collections::BTreeSet<usize>,
+    conn_emitted: std::collections::BTreeSet<usize>,
     pub incoming_seen: u32,
     stale_due: Vec<Vec<u8>>,
     pub stale_abandoned: u32,
@@ -530,7 +534,7 @@ impl World {
             cur_rx_dgram: 0,
             attacks: vec![],
             attack_log: vec![],
-            attack_tails: vec![], exact_reset_seen: Default::default(), stale_accepts: vec![], incoming_seen: 0, stale_due: vec![], stale_abandoned: 0,
+            attack_tails: vec![], exact_reset_seen: Default::default(), stale_accepts: vec![], corrupt_first_of: Default::default(), conn_emitted: Default::default(), incoming_seen: 0, stale_due: vec![], stale_abandoned: 0,
             last_incoming_size: 0,
             check_amp: true,
             client_token_store: None,
@@ -846,8 +850,13 @@ impl World {
             return rec;
         }
         let faults = if dir == 0 { &self.spec.faults_c2s } else { &self.spec.faults_s2c };
-        let f = faults.get(self.fault_i[dir]).cloned().unwrap_or(Fault::Deliver);
+        let mut f = faults.get(self.fault_i[dir]).cloned().unwrap_or(Fault::Deliver);
         self.fault_i[dir] += 1;
+        if let Some(k) = conn {
+            if self.conn_emitted.insert(k) && self.corrupt_first_of.contains(&k) && size >= 1200 {
+                f = Fault::Corrupt(Corruption::Flip { pos: 3823, bit: 3 });
+            }
+        }
         if self.faults_done_at.is_none()
             && self.fault_i[0] >= self.spec.faults_c2s.len()
             && self.fault_i[1] >= self.spec.faults_s2c.len()
@@ -1716,7 +1725,13 @@ impl World {
                         if self.conns[k].services_at_instant > 200 {
                             self.viol.push(Viol {
                                 sig: "c20/timeouts-do-not-converge".into(),
-                                msg: format!("conn {k}: handle_timeout was needed {} times at instant {} us and poll_timeout() is still not in the future", self.conns[k].services_at_instant, self.now),
+                                msg: {
+                                    let p = self.conns[k].c.verif_probe();
+                                    format!(
+                                        "conn {k}: handle_timeout was needed {} times at instant {} us and poll_timeout() is still not in the future (deadline {d} us; timers armed {:?}; state {}, in flight {} / window {}, pto_count {}, sent_packets {:?}, loss_probes {:?})",
+                                        self.conns[k].services_at_instant, self.now, p.timers_armed, p.state, p.bytes_in_flight, p.congestion_window, p.pto_count, p.sent_packets, p.loss_probes
+                                    )
+                                },
                             });
                             self.conns[k].deadline = None;
                             continue;
